@@ -454,18 +454,18 @@ def det_bool(st, n, name):
 
 
 def create_indexlist(ex, st, n, args):
-    """ASSUMED contract of create_indexlist(dim, A) (dense.c; its own body is
-    outside the subset: it needs a quantified invariant over buffer contents):
-    NULL with IndexError/TypeError/MemoryError set, or an 'i' matrix every
-    element e of which satisfies -dim <= e < dim.  For a matrix argument the
-    result is the argument itself."""
+    """Contract of create_indexlist(dim, A), proved on its own body
+    (post_indexlist below, obligation indexlist-postcondition): NULL with
+    IndexError/TypeError/MemoryError set, or an 'i' matrix every element e
+    of which satisfies -dim <= e < dim.  For a matrix argument the result is
+    the argument itself."""
     if st.pure:
         raise Impure()
     dim = toint(ex.ev(args[0], st)).t
     a = ex.ev(args[1], st)
-    ex.trusted.add('create_indexlist(dim, A): NULL with an exception, or an '
-                   "'i' matrix with all elements in [-dim, dim) (assumed, "
-                   'dense.c:659)')
+    ex.trusted.add('callee contract create_indexlist(dim, A): NULL with an '
+                   "exception, or an 'i' matrix with all elements in "
+                   '[-dim, dim) (proved on its body: indexlist-postcondition)')
     if not isinstance(a, PtrV) or a.obj is None:
         raise Unsupported('create_indexlist of %r' % (a,))
     fails = det_bool(st, n, 'create_indexlist_fails')
@@ -1546,6 +1546,102 @@ FUNCS['Matrix_NewFromPyBuffer'] = {
         'global:FMT_STR': lambda ex, st, n: ArrV([StrV(x) for x in FMT4])}),
     'config': {'small_malloc_succeeds': True}}
 
+def init_indexlist(ex, st, params):
+    dim = ex.fresh_int('dim', 'long')
+    ex.axioms.append(z3.And(dim.t >= 0, dim.t <= 2**31 - 1))
+    st.vars[params[0]['id']] = dim
+    st.vars[params[1]['id']] = PtrV(None, 0, 'PyObject', obj=ex.new_obj('A'))
+    ex.trusted.add('precondition of create_indexlist: 0 <= dim <= INT_MAX '
+                   '(every caller passes a matrix dimension or length)')
+
+
+def post_indexlist(ex, finished, extra_obs):
+    """create_indexlist(dim, A): NULL with an exception, or an 'i' matrix
+    every element e of which satisfies -dim <= e < dim -- the contract that
+    the indexing functions use, proved here on the function's own body.  The
+    quantified part comes from the element facts of the loop rule (a loop
+    that tests or stores element c in iteration c)."""
+    ob = mk_ob(ex, extra_obs)
+    dim = z3.Int('dim')
+    A = ex.objs['A']
+    nok = 0
+
+    def in_range(e_):
+        return z3.And(e_ >= -dim, e_ < dim)
+    for st, kind, val in finished:
+        pc = st.path()
+        if is_error(val):
+            exc = st.exc
+            if exc is None:
+                for cond, name in st.ghost.get('exc_if', []):
+                    if ex.check(pc, [z3.Not(cond)]) == z3.unsat:
+                        exc = name
+            if exc is None and st.ghost.get('maybe_exc') is not None:
+                exc = 'PyExc_MemoryError'
+            ob('reject-exception', pc, z3.BoolVal(exc in (
+                'PyExc_IndexError', 'PyExc_TypeError', 'PyExc_MemoryError',
+                'PyExc_ValueError')),
+               'a NULL return has IndexError, TypeError, ValueError or '
+               'MemoryError set (got %s)' % exc)
+            continue
+        if not isinstance(val, PtrV) or val.obj is None:
+            continue
+        if val.null is not None:
+            pc = pc + [z3.Not(val.null)]
+            if ex.check(pc, []) == z3.unsat:
+                continue
+        nok += 1
+        o = val.obj
+        reg = o.buffer_region()
+        lgt = o.nrows * o.ncols
+        ob('indexlist-postcondition', pc, z3.And(o.ismat, o.id == 0),
+           "the result is an 'i' matrix")
+        if st.ghost.get(('elem_inv', reg.uid)) is not None and o is not A:
+            # the result of the recursive call: by this very contract
+            ob('indexlist-postcondition', pc, True,
+               'elements of the list branch are in range by the contract of '
+               'the recursive call')
+            continue
+        facts = st.ghost.get(('elem_facts', reg.uid), ())
+        nst = sum(1 for s_ in st.stores if s_[0] is reg)
+        goal = None
+        text = 'every element of the returned index list lies in [-dim, dim)'
+        for f_ in facts:
+            if f_['nstores'] != nst:
+                continue
+            cover = z3.And(f_['lo'] == 0, f_['hi'] == lgt, f_['base'] == 0,
+                           f_['sz'] == 8)
+            e_ = z3.Int('elem!')
+            if f_['how'] == 'checked':
+                imp = z3.Implies(f_['pred'](e_), in_range(e_))
+                g = z3.And(cover, imp)
+            else:
+                _, valt, csym = f_['pred'](None)
+                k_ = z3.Int('k!')
+                vk = z3.substitute(valt, (csym, k_))
+                hyps = [hf(k_) for hf in st.ghost.get('forall', ())]
+                g = z3.And(cover, z3.Implies(z3.And(
+                    [k_ >= 0, k_ < lgt] + hyps), in_range(vk)))
+            if ex.check(pc, [z3.Not(g)]) == z3.unsat:
+                goal = g
+                break
+            goal = goal if goal is not None else g
+        if goal is None:
+            # no loop: the elements were stored one by one
+            recs = [r_ for k_, r_ in st.ghost.items() if isinstance(
+                k_, tuple) and k_ and k_[0] == 'storerec' and r_[0] is reg]
+            if recs:
+                e0 = recs[-1]
+                goal = z3.And(lgt == len(recs), e0[1] == 0,
+                              in_range(e0[3])) if len(recs) == 1 else \
+                    z3.BoolVal(False)
+            else:
+                goal = lgt == 0
+        ob('indexlist-postcondition', pc, goal, text)
+    ob('covered', [], z3.BoolVal(nok > 0), 'a success path exists')
+    return {'success_paths': nok}
+
+
 def init_concat(ex, st, params):
     o = ex.new_obj('L')
     st.vars[params[0]['id']] = PtrV(None, 0, 'PyObject', obj=o)
@@ -1685,6 +1781,16 @@ FUNCS['matrix_new'] = {
         'dense_concat': callee_contract('dense_concat', 1),
         'PyObject_CheckBuffer': check_buffer}),
     'config': {'allow_unsupported': ['dense', 'spmatrix', 'SP_', 'sparse']}}
+
+FUNCS['create_indexlist'] = {
+    'init': init_indexlist, 'post': post_indexlist,
+    'externs': dict(COMMON, **{
+        'create_indexlist': create_indexlist,
+        'Matrix_NewFromSequence': callee_contract('NewFromSequence', 1),
+        'PySlice_GetIndicesEx': slice_get_indices,
+        'PySlice_Unpack': slice_unpack,
+        'PySlice_AdjustIndices': slice_adjust}),
+    'config': {'index_may_alias': False}}
 
 FUNCS['dense_concat'] = {
     'init': init_concat, 'post': post_concat,
